@@ -254,6 +254,24 @@ func newVariantPool(tBytes []byte, tTx *lib.Transaction, signer cs.Signer) *vari
 		})
 	}
 	if signer.Kind != cs.KindRLP && signer.Kind != cs.KindRLPV2 {
+		// one envelope scalar changed, signature KEPT: the replay-side view of "the signature covers every field". On a correct
+		// tree the sign bytes differ (control: sameContent=false) and the signature check rejects them; a field missing from the
+		// sign bytes would make these same-content variants with a fresh hash.
+		add("scalar-changed-signature-kept", "nonce=1,signature-kept", false, func(tx *lib.Transaction) bool { tx.Nonce = 1; return true })
+		add("scalar-changed-signature-kept", "nonce=2^63,signature-kept", false, func(tx *lib.Transaction) bool { tx.Nonce = 1 << 63; return true })
+		add("scalar-changed-signature-kept", "time+1,signature-kept", false, func(tx *lib.Transaction) bool { tx.Time++; return true })
+		add("scalar-changed-signature-kept", "time-1,signature-kept", false, func(tx *lib.Transaction) bool { tx.Time--; return true })
+		add("scalar-changed-signature-kept", "memo+x,signature-kept", false, func(tx *lib.Transaction) bool { tx.Memo += "x"; return true })
+		add("scalar-changed-signature-kept", "fee+1,signature-kept", false, func(tx *lib.Transaction) bool { tx.Fee++; return true })
+		add("scalar-changed-signature-kept", "fee-1,signature-kept", false, func(tx *lib.Transaction) bool { tx.Fee--; return true })
+		add("scalar-changed-signature-kept", "created_height+1,signature-kept", false, func(tx *lib.Transaction) bool { tx.CreatedHeight++; return true })
+		add("scalar-changed-signature-kept", "created_height-1,signature-kept", false, func(tx *lib.Transaction) bool {
+			if tx.CreatedHeight < 2 {
+				return false
+			}
+			tx.CreatedHeight--
+			return true
+		})
 		add("sig-malleation", "sig+0x00", true, func(tx *lib.Transaction) bool {
 			tx.Signature.Signature = append(append([]byte{}, sig...), 0)
 			return true
@@ -269,8 +287,18 @@ func newVariantPool(tBytes []byte, tTx *lib.Transaction, signer cs.Signer) *vari
 // draw picks a variant: fixed families and wire re-encodings (single trick or two composed tricks).
 func (p *variantPool) draw(rt *rapid.T, label string) variant {
 	switch k := rapid.IntRange(0, 9).Draw(rt, label+"-family"); {
-	case k <= 2 || len(p.wire) == 0:
-		return p.fixed[rapid.IntRange(0, len(p.fixed)-1).Draw(rt, label+"-fixed")]
+	case k <= 3 || len(p.wire) == 0:
+		// class first, then a member: small families (signature malleations) are not drowned by large ones
+		var classes []string
+		byClass := map[string][]variant{}
+		for _, v := range p.fixed {
+			if _, ok := byClass[v.class]; !ok {
+				classes = append(classes, v.class)
+			}
+			byClass[v.class] = append(byClass[v.class], v)
+		}
+		vs := byClass[classes[rapid.IntRange(0, len(classes)-1).Draw(rt, label+"-class")]]
+		return vs[rapid.IntRange(0, len(vs)-1).Draw(rt, label+"-fixed")]
 	case k <= 7:
 		w := p.wire[rapid.IntRange(0, len(p.wire)-1).Draw(rt, label+"-wire")]
 		v := variant{label: w.Trick, class: "wire:" + w.Class, bz: w.Bytes}
